@@ -89,4 +89,28 @@ theorem brackets_found {xs : List ℝ} (x : ℝ) (j : Nat) (hj1 : 1 ≤ j) (hj :
     rw [this]
     congr 3 <;> omega
 
+
+section
+variable {xs ys : List ℝ}
+
+/-- the linear interpolant between knots `i` and `j` -/
+noncomputable def interp (xs ys : List ℝ) (i j : Nat) (hi : i < xs.length) (hj : j < xs.length) (hyi : i < ys.length)
+    (hyj : j < ys.length) (x : ℝ) : ℝ :=
+  ys[i] + (x - xs[i]) / (xs[j] - xs[i]) * (ys[j] - ys[i])
+
+/-- `Piecewise` once the bracketing pair is known -/
+theorem piecewise_of_brackets {x : ℝ} {i j : Nat} (hb : brackets x xs = .ok (some (i, j)))
+    (hi : i < xs.length) (hj : j < xs.length) (hyi : i < ys.length) (hyj : j < ys.length) :
+    piecewise x xs ys =
+      if x = xs[j] then .val ys[j]
+      else if (ys[i] ≤ ys[j] ∧ ys[j] < interp xs ys i j hi hj hyi hyj x) ∨
+              (ys[j] ≤ ys[i] ∧ interp xs ys i j hi hj hyi hyj x < ys[j]) then .val ys[j]
+      else .val (interp xs ys i j hi hj hyi hyj x) := by
+  unfold piecewise interp
+  rw [hb]
+  simp only [List.getElem?_eq_getElem hi, List.getElem?_eq_getElem hj, List.getElem?_eq_getElem hyi,
+    List.getElem?_eq_getElem hyj, RealNum.feq_eq]
+
+end
+
 end OW.Proofs.Piecewise
